@@ -1,10 +1,11 @@
 #!/bin/bash
-# usage: tools/all_seeds.sh [log]   — apply every recorded seeded change in turn, run its property's quick check, revert; summary per seed
+# usage: tools/all_seeds.sh [log] [regex over seed dir names]   — apply every recorded seeded change in turn, run its property's quick check, revert; summary per seed
 LOG=${1:-/var/tmp/neumann-verif/all_seeds.log}
 : > $LOG
 cd /verif
 for d in seeded/*/; do
   n=$(basename $d); pid=${n%_*}
+  if [ -n "$2" ] && ! echo "$n" | grep -Eq "$2"; then continue; fi
   pf=/verif/$d/patch.diff; [ -f /verif/$d/patch.rebased.diff ] && pf=/verif/$d/patch.rebased.diff
   out=$(tools/try_seed.sh $pid $pf 2>&1)
   rc=$(echo "$out" | grep -o "exit=[0-9]*" | tail -1)
